@@ -17,7 +17,7 @@ import verus     # noqa: E402
 
 GEN_DIR = os.path.join(ROOT, '.cache', 'gen')
 REPLAYS = os.path.join(ROOT, 'replays')
-EVIDENCE = os.path.join(ROOT, 'evidence')
+EVIDENCE = os.path.join(ROOT, 'evidence') if not os.environ.get('VERIF_NO_EVIDENCE') else os.path.join(ROOT, '.cache', 'evidence-scratch')
 
 
 class Undecided(Exception):
@@ -197,6 +197,8 @@ def run_kani_units(units, tier, jobs, keep=False):
             eval_harness({'name': 'canary_must_fail', 'kind': 'must_fail'}, can)
             for h in hs:
                 ok, detail = eval_harness(h, res.get(h['name']))
+                if res.get(h['name'], {}).get('from_cache'):
+                    detail = detail + ['verdict reused: identical inputs (tree hash %s) verified at %s' % (meta.get('tree_hash', '')[:12], res[h['name']].get('cached_at', '?'))]
                 rec = {'name': 'kani:%s:%s' % (u['package'], h['name']), 'engine': 'kani/cbmc', 'ok': ok,
                        'time_ms': int(1000 * (res[h['name']].get('time_s') or 0)), 'detail': detail,
                        'bounded': bool(h.get('bounded')), 'bound': h.get('bounded') or '',
@@ -210,7 +212,7 @@ def run_kani_units(units, tier, jobs, keep=False):
                         except Exception as e:  # replay material is best effort
                             rec['concrete_playback'] = None
                 obls.append(rec)
-            metas.append({'package': u['package'], 'cmd': meta['cmd'], 'wall_s': meta['wall_s'], 'overlay': sc.applied})
+            metas.append({'package': u['package'], 'cmd': meta['cmd'], 'wall_s': meta['wall_s'], 'overlay': sc.applied, 'reused_from_cache': meta.get('reused_from_cache', []), 'tree_hash': meta.get('tree_hash', '')})
     finally:
         sc.__exit__(None, None, None)
     return obls, metas, sc.dir
@@ -247,16 +249,25 @@ def run_property(pid, tier, seed, args):
         if m is not None:
             vmetas.append(m)
     extra_obls, extra_meta = [], []
+    undecided = []   # parts that could not be decided; a violation found elsewhere is still reported
     for tool in P.get('tools', []):
         if tier != 'thorough' and tool.get('tier', 'quick') != 'quick':
             continue
         import tools as toolmod
-        o, m = toolmod.run(tool, tier, seed)
+        try:
+            o, m = toolmod.run(tool, tier, seed)
+        except Undecided as e:
+            undecided.append(str(e))
+            continue
         extra_obls += o
         extra_meta.append(m)
     obls += extra_obls
-    kobls, kmetas, _ = run_kani_units(P.get('kani', []), tier, args.jobs, keep=args.keep)
-    obls += kobls
+    kmetas = []
+    try:
+        kobls, kmetas, _ = run_kani_units(P.get('kani', []), tier, args.jobs, keep=args.keep)
+        obls += kobls
+    except Undecided as e:
+        undecided.append(str(e))
     # ---- verdict
     proved = [o for o in obls if not o['bounded']]
     bounded = [o for o in obls if o['bounded']]
@@ -297,7 +308,7 @@ def run_property(pid, tier, seed, args):
                          'functions_verified_in_file': m['verified_total'], 'canary_failed_as_expected': m['canary_failed_as_expected'],
                          'extracted': [{'fn': f['fn'], 'from': '%s:%d' % (f['file'], f['line']), 'body_sha256_16': f['body_sha'], 'rewrites': f['edits']} for f in m['extraction']['functions']]}
                         for m in vmetas],
-        'kani_units': [{'package': m['package'], 'cmd': m['cmd'], 'wall_s': round(m['wall_s'], 2), 'overlay': m['overlay']} for m in kmetas],
+        'kani_units': [{'package': m['package'], 'cmd': m['cmd'], 'wall_s': round(m['wall_s'], 2), 'overlay': m['overlay'], 'verdicts_reused_from_content_addressed_cache': m.get('reused_from_cache', []), 'tree_hash': m.get('tree_hash', '')} for m in kmetas],
         'tools': extra_meta,
         'samples': [o['name'] + ' :: ' + '; '.join(o['detail'])[:200] for o in obls[:6]],
         'explanation': P.get('explanation', ''),
@@ -312,6 +323,10 @@ def run_property(pid, tier, seed, args):
         json.dump(ev, f, indent=1)
     for o in obls:
         print('%-9s %-70s %s%s' % ('ok' if o['ok'] else 'FAILED', o['name'], '[bounded: %s] ' % o['bound'] if o['bounded'] else '', '; '.join(o['detail'])[:160]))
+    if undecided and not violations:
+        raise Undecided(' || '.join(undecided))
+    for u in undecided:
+        print('UNDECIDED-PART property=%s reason=%s' % (pid, u.replace('\n', ' | ')[:600]))
     if violations:
         for o in violations:
             path = write_replay(pid, o, vmetas)
